@@ -32,6 +32,8 @@ var interestingRunes = []rune{
 	0x00, 0x01, 0x07, 0x08, 0x09, 0x0A, 0x0B, 0x0C, 0x0D, 0x1B, 0x1F, 0x20, '"', '\\', '/', '#', '.', ':', ',', '[', ']', '{', '}',
 	'<', '>', '&', '\'', 0x7E, 0x7F, 0x80, 0x85, 0xA0, 0xAD, 0xE9, 0x7FF, 0x800, 0x1680, 0x2000, 0x2028, 0x2029, 0x202F, 0x3000,
 	0xD7FF, 0xE000, 0xFEFF, 0xFFFD, 0xFFFE, 0xFFFF, 0x10000, 0x1F600, 0xE0001, 0xFFFFF, 0x100000, 0x10FFFF, 'a', 'Z', '0', '9', 'e', 'n', 't',
+	// code points whose low byte / low 16 bits is a character the code reacts to (truncating conversions)
+	0x10A, 0x20A, 0xFF0A, 0x1F60A, 0x1000A, 0x10D, 0x122, 0xFF02, 0x15C, 0x12C, 0x13A, 0x15B, 0x15D, 0x17B, 0x17D, 0x120, 0x109, 0x12E, 0x123, 0x10022, 0x1005C, 0x100,
 }
 
 func (r *Rng) Rune() rune {
